@@ -28,6 +28,7 @@ import EaselModel.Dist.GamSampleGen
 import EaselModel.Dist.DLogSumAll
 import EaselModel.Dist.Limits
 import EaselModel.Dist.SeriesConv
+import EaselModel.Dist.EdgeAtMu
 /-! # C10 — each distribution's pdf, cdf, survival, log and inverse functions agree
 
 Full statement (properties.jsonl): for every supported continuous distribution and all valid parameters and arguments
@@ -1079,6 +1080,48 @@ example : ∃ r, ∃ N : Nat, ∀ fuel, N ≤ fuel → esl_mixgev_invcdf fuel (1
     simp [MixGen.mixgevQ, MixGen.gq, Finset.sum_range_succ]; norm_num
   obtain ⟨XL, XR, r, _, _, hr, _⟩ := mixgev_invcdf_total_unconditional ok (p := 1 / 2) (by norm_num) (by rw [hQ]; norm_num)
   exact ⟨r, _, hr⟩
+
+/-! ## Round 6b: exact values AT the support edge `x == μ` (gamma, Weibull, stretched exponential) -/
+
+/-- Over `ℝ`, at `x = μ` exactly, for every `λ` and shape: `esl_gam_pdf` and `esl_wei_pdf` return `+inf` / `λ` / `0` and their
+    log versions `+inf` / `log λ` / `-inf` for `τ < 1` / `τ = 1` / `τ > 1` (the right-hand limits of the density; `eslINFINITY` is
+    the opaque symbol `Num.inf`), with `logpdf = log pdf` where the density is finite and positive (`τ = 1`, `λ > 0`);
+    `esl_sxp_pdf = λτ / e^{LogGamma(1/τ)}` (finite for every shape) with `logpdf = log pdf` exactly for `λ, τ > 0`; the gamma
+    distribution functions there are `cdf = 0`, `surv = 1`, `logcdf = -inf`, `logsurv = 0` (Weibull / sxp: `wei_outside_support`,
+    `gam_sxp_outside_support` at `x ≤ μ`).  The same values are DOCUMENTED expectations of the correspondence run
+    (`edge-at-mu-exact`: 1190 operations compared bit-for-bit with the C functions, incl. `τ = 1 ± 1 ulp` and `μ − 1 ulp`). -/
+theorem support_edge_values (μ l τ : ℝ) :
+    ((τ < 1 → esl_gam_pdf μ μ l τ = Num.inf ∧ esl_gam_logpdf μ μ l τ = Num.inf) ∧
+      (1 < τ → esl_gam_pdf μ μ l τ = 0 ∧ esl_gam_logpdf μ μ l τ = -Num.inf) ∧
+      (τ = 1 → esl_gam_pdf μ μ l τ = l ∧ esl_gam_logpdf μ μ l τ = log l ∧ (0 < l → esl_gam_logpdf μ μ l τ = log (esl_gam_pdf μ μ l τ))) ∧
+      (esl_gam_cdf μ μ l τ = 0 ∧ esl_gam_surv μ μ l τ = 1 ∧ esl_gam_logcdf μ μ l τ = -Num.inf ∧ esl_gam_logsurv μ μ l τ = 0)) ∧
+    ((τ < 1 → esl_wei_pdf μ μ l τ = Num.inf ∧ esl_wei_logpdf μ μ l τ = Num.inf) ∧
+      (1 < τ → esl_wei_pdf μ μ l τ = 0 ∧ esl_wei_logpdf μ μ l τ = -Num.inf) ∧
+      (τ = 1 → esl_wei_pdf μ μ l τ = l ∧ esl_wei_logpdf μ μ l τ = log l ∧ (0 < l → esl_wei_logpdf μ μ l τ = log (esl_wei_pdf μ μ l τ)))) ∧
+    (0 < l → 0 < τ → esl_sxp_pdf μ μ l τ = l * τ / exp (Num.logGamma (1 / τ)) ∧
+      esl_sxp_logpdf μ μ l τ = log l + log τ - Num.logGamma (1 / τ) ∧
+      esl_sxp_logpdf μ μ l τ = log (esl_sxp_pdf μ μ l τ) ∧ 0 < esl_sxp_pdf μ μ l τ) :=
+  ⟨EdgeAtMu.gam_at_mu μ l τ, EdgeAtMu.wei_at_mu μ l τ, fun hl hτ => EdgeAtMu.sxp_at_mu hl hτ⟩
+
+/-- every carrier (so also binary64): what the `x == mu` branch of the translated densities returns, under exactly the tests
+    the C code makes (`y < 0` resp. `x < mu` false, `x == mu` true, then `tau < 1`, `tau > 1`, `tau == 1` in that order) -/
+theorem support_edge_branches {α : Type} [Add α] [Sub α] [Mul α] [Div α] [Neg α] [OfScientific α] [LT α] [LE α]
+    [DecidableLT α] [DecidableLE α] [Num α] {x mu l t : α} (he : Num.eqb x mu = true) :
+    (¬ l * (x - mu) < 0.0 →
+      (t < 1.0 → esl_gam_pdf x mu l t = Num.inf ∧ esl_gam_logpdf x mu l t = Num.inf) ∧
+      (¬ t < 1.0 → 1.0 < t → esl_gam_pdf x mu l t = 0.0 ∧ esl_gam_logpdf x mu l t = -Num.inf) ∧
+      (¬ t < 1.0 → ¬ 1.0 < t → Num.eqb t 1.0 = true → esl_gam_pdf x mu l t = l ∧ esl_gam_logpdf x mu l t = Num.log l)) ∧
+    (¬ x < mu →
+      ((t < 1.0 → esl_wei_pdf x mu l t = Num.inf ∧ esl_wei_logpdf x mu l t = Num.inf) ∧
+      (¬ t < 1.0 → 1.0 < t → esl_wei_pdf x mu l t = 0.0 ∧ esl_wei_logpdf x mu l t = -Num.inf) ∧
+      (¬ t < 1.0 → ¬ 1.0 < t → Num.eqb t 1.0 = true → esl_wei_pdf x mu l t = l ∧ esl_wei_logpdf x mu l t = Num.log l)) ∧
+      esl_sxp_pdf x mu l t = (l * t) / Num.exp (Num.logGamma (1.0 / t)) ∧
+      esl_sxp_logpdf x mu l t = (Num.log l + Num.log t) - Num.logGamma (1.0 / t)) :=
+  ⟨fun hy => EdgeAtMu.gam_pdf_edge hy he, fun hx => ⟨EdgeAtMu.wei_pdf_edge hx he, EdgeAtMu.sxp_pdf_edge hx he⟩⟩
+
+/-- non-vacuity: the `τ = 1` branch over `ℝ` -/
+example : esl_wei_logpdf (3 : ℝ) 3 2 1 = log (esl_wei_pdf (3 : ℝ) 3 2 1) :=
+  ((support_edge_values 3 2 1).2.1.2.2 rfl).2.2 (by norm_num)
 
 /-! ## The pdf integrates to cdf differences -/
 
